@@ -17,7 +17,7 @@ VERIF = extract.VERIF
 KNOWN = os.path.join(VERIF, 'known_findings.json')
 EVID = os.environ.get('OXA_EVIDENCE_DIR') or os.path.join(VERIF, 'evidence')
 
-PROPS = ['C01', 'C02', 'C03', 'C05', 'C06', 'C07', 'C08', 'C09', 'C10', 'C11', 'C12', 'C13', 'C15', 'C16', 'C17', 'C18',
+PROPS = ['C01', 'C02', 'C03', 'C05', 'C06', 'C07', 'C08', 'C09', 'C10', 'C11', 'C12', 'C13', 'C14', 'C15', 'C16', 'C17', 'C18',
          'C19', 'C20']
 
 
